@@ -28,7 +28,7 @@ ASSUMPTIONS = [
     "exact-time regime for E1: tick period and tasker periods are integers assigned after construction (skedder.period, framer.period); "
     "decimal periods are covered only by the E2 obligation below",
     "workers are framers with one frame recording the store stamp at every run; controller in back order bids stop all at tick K",
-    "E1 bounds: K <= 4 (quick) / 6 (thorough) ticks, P in [1,3], p_i in [0,7]",
+    "E1 bounds: K <= 4 (quick) / 6 (thorough) ticks, P in [1,3], p_i in [0,7], start time t0 in {0, P, 2P}",
     "E2: Skedder.run's `retime + tasker.period`, `retime > stamp`, `self.stamp += self.period` extracted by AST pattern (a change to any of them changes the encoding); "
     "doubles with P in [2^-7,16], p = m*P exact, m in {2,3,4}, K <= 8 ticks; the converse monotonicity fact (p <= P => every tick) did not solve and is not claimed",
 ]
@@ -108,7 +108,8 @@ def h(sym, orders, K, mode, P=None, before=None, pmax=7):
         store.create("pnew").value = pnew
     sk = skedding.Skedder(name="s", period=1.0, houses=houses)
     sk.period = P
-    sk.stamp = 0
+    t0 = sym.int("t0", 0, 2) * P        # the run may start at a non-zero time (a multiple of the tick keeps tick times integral)
+    sk.stamp = t0
     del STAMPS[:]
     orig_change = store.changeStamp
     nticks = [0]
@@ -168,7 +169,7 @@ def h(sym, orders, K, mode, P=None, before=None, pmax=7):
             chg = ((ct if change[0] == "before" else ct + 1), pnew)
             sym.cover("period-changed")
         exp = model_runs(P, ps[i], K, abort_at, chg)
-        expst = [e * P for e in exp]
+        expst = [t0 + e * P for e in exp]
         sym.check(len(runs) == len(expst) and all(a == b for a, b in zip(runs, expst)),
                   "C02/run-times-differ-from-period-rule" + ("-after-abort" if abort_at is not None else "") + ("-after-period-change" if chg else ""),
                   lambda: "worker %s period %s tick %s: ran at %s expected %s (abort %s change %s)\n%s" % (nm, ps[i], P, runs, expst, abort_at, chg, text))
